@@ -52,7 +52,7 @@ class C12(Prop):
         obs = [r for r in results if r[0] == "obs"]
         op_with_obs = [o for o in ops if o[0] not in ("init", "dumpfs", "counters")]
         if len(op_with_obs) != len(obs):
-            return []
+            return self.skip("guard")
         cfgs = []
         k_of = {}
         fails = []
